@@ -116,7 +116,8 @@ def cases(ctx):
                 if len(r) == len(hdr):
                     r[-1] = 't%dr%d' % (j, r_i) if hdr[-1] != 'k' else r[-1]
             tables.append(t)
-        key = rng.choice(['k', 'k', ('k',), ('k', 'v'), None]) if same else rng.choice(['k', 'k', ('k',), None])
+        # with equal headers the key is also given by position (0 included): an index, a tuple of indices, a mixed tuple
+        key = rng.choice(['k', 'k', ('k',), ('k', 'v'), None, 0, 0, (0,), (0, 1), ('k', 1), 1]) if same else rng.choice(['k', 'k', ('k',), None])
         yield {'kind': 'mergesort', 'tables': tables, 'key': key, 'reverse': rng.random() < 0.5,
                'header': None if rng.random() < 0.8 else ['k', 'v'], 'missing': rng.choice([None, None, 'M']),
                'presorted': rng.random() < 0.3}
